@@ -14,6 +14,7 @@
 #include "stir/recon_buildblock/PoissonLogLikelihoodWithLinearModelForMeanAndProjData.h"
 #include "stir/recon_buildblock/QuadraticPrior.h"
 #include "stir/recon_buildblock/RelativeDifferencePrior.h"
+#include "stir/SeparableGaussianImageFilter.h"
 #include "stir/recon_buildblock/BinNormalisationFromProjData.h"
 #include "stir/IO/InterfileOutputFileFormat.h"
 #include "stir/IO/read_from_file.h"
